@@ -127,6 +127,7 @@ func main() {
 	r.Require("bounds_big_equal_difference_in_last_3", 300)
 	r.Require("bounds_big_chunk_ge_128_pieces", 100)
 	r.Require("keep_calls", 100000)
+	r.Require("keep_cases_with_operands_of_32_or_more", 300)
 	r.Require("keep_inputs_checked_unmodified", 30000)
 	r.Require("keep_inputs_unmodified_result_not_a_prefix", 3000)
 	r.Require("keep_kept_results_rechecked", 10000)
